@@ -212,3 +212,73 @@ func zzC13_dwr() {
 	}
 	vReach("C13_dwr")
 }
+
+// zzC10_client: the client side of the gate. A Client dials; before answering the client's CER the
+// peer sends (case split, <= E messages) a CER of its own, application answers registered by name /
+// by index / caught by the catch-all, a DWR; then a success CEA, a failure CEA, or nothing more.
+// No application handler runs before the success CEA; afterwards each matching message runs its handler.
+func zzC10_client() {
+	st := New(zzSettings(true))
+	var fired []int
+	st.HandleFunc("CCA", func(c diam.Conn, m *diam.Message) { fired = append(fired, 2) })
+	st.HandleIdx(diam.CommandIndex{AppID: 4, Code: diam.ReAuth, Request: true}, diam.HandlerFunc(func(c diam.Conn, m *diam.Message) { fired = append(fired, 3) }))
+	st.HandleFunc("ALL", func(c diam.Conn, m *diam.Message) { fired = append(fired, 4) })
+	cli := zzClient(st, 0, false)
+	t := zzNewTransport("198.51.100.7:3868")
+	var conn diam.Conn
+	var herr error
+	done := false
+	go func() {
+		conn, herr = cli.NewConn(t, "zz")
+		done = true
+	}()
+	vQuiesce()
+	vAssume(len(t.written) == 1 && !done)
+	send := func(m *diam.Message) {
+		b, err := m.Serialize()
+		vAssume(err == nil)
+		t.in <- b
+		vQuiesce()
+	}
+	early := vLen("early", 0, vParam("E", 2))
+	for i := 0; i < early; i++ {
+		switch vChoice("earlymsg", 5) {
+		case 0:
+			send(zzCER(4, 0, true))
+		case 1:
+			send(zzAppMsg(diam.CreditControl, 4, false))
+		case 2:
+			send(zzAppMsg(diam.ReAuth, 4, true))
+		case 3:
+			send(zzAppMsg(diam.AbortSession, 4, true))
+		case 4:
+			send(zzDWR())
+		}
+		vAssert(len(fired) == 0, "client side: no application handler runs before the client's CER/CEA exchange has succeeded")
+		vAssert(!done, "only a CEA settles the client's handshake")
+	}
+	cer, cerr := diam.ReadMessage(&zzReader{b: t.written[0]}, dict.Default)
+	vAssume(cerr == nil)
+	rc := uint32(diam.Success)
+	if zzFlag("rejected") {
+		rc = vU32("rc")
+		vAssume(rc != diam.Success)
+	}
+	a := cer.Answer(rc)
+	a.NewAVP(avp.OriginHost, avp.Mbit, 0, datatype.DiameterIdentity("peer.example"))
+	a.NewAVP(avp.OriginRealm, avp.Mbit, 0, datatype.DiameterIdentity("peers"))
+	a.NewAVP(avp.AuthApplicationID, avp.Mbit, 0, datatype.Unsigned32(4))
+	send(a)
+	vAssert(done, "the CEA settles the handshake")
+	vAssert((conn != nil && herr == nil) == (rc == diam.Success), "success exactly on a success CEA sharing an application")
+	vAssert(len(fired) == 0, "the CEA itself reaches no application handler")
+	if rc != diam.Success {
+		vReach("C10_client_rejected")
+		return
+	}
+	send(zzAppMsg(diam.CreditControl, 4, false))
+	send(zzAppMsg(diam.ReAuth, 4, true))
+	send(zzAppMsg(diam.AbortSession, 4, true))
+	vAssert(len(fired) == 3 && fired[0] == 2 && fired[1] == 3 && fired[2] == 4, "after the handshake every matching message runs its handler, once")
+	vReach("C10_client")
+}
